@@ -225,14 +225,19 @@ pub struct Torn {
     /// indices (counted over config-space + generation accesses of the call) before which the
     /// device switches to its next snapshot
     pub updates: Vec<u16>,
+    /// 0: every snapshot differs in every field; 1: the upper half of 64-bit values alternates
+    /// between two values, so that it *repeats* across updates (an implementation that validates a
+    /// read by re-reading one half is fooled by the repeat)
+    #[serde(default)]
+    pub family: u8,
 }
 
-fn snapshot_bytes(drv: Drv, s: u32) -> Vec<u8> {
+fn snapshot_bytes(drv: Drv, s: u32, family: u8) -> Vec<u8> {
     match drv {
         Drv::Blk | Drv::Vsock => {
             let mut v = Vec::new();
             v.extend_from_slice(&s.to_le_bytes());
-            v.extend_from_slice(&s.to_le_bytes());
+            v.extend_from_slice(&(if family == 1 { 7 + (s & 1) } else { s }).to_le_bytes());
             v.resize(64, 0);
             v
         }
@@ -268,9 +273,9 @@ enum Val {
     Tag(String),
 }
 
-fn snapshot_val(drv: Drv, s: u32) -> Val {
+fn snapshot_val(drv: Drv, s: u32, family: u8) -> Val {
     match drv {
-        Drv::Blk | Drv::Vsock => Val::U64((s as u64) << 32 | s as u64),
+        Drv::Blk | Drv::Vsock => Val::U64(((if family == 1 { 7 + (s & 1) } else { s }) as u64) << 32 | s as u64),
         Drv::Console => Val::Pair(s as u16, s as u16),
         Drv::Net => Val::Mac([s as u8; 6]),
         Drv::P9 => {
@@ -283,6 +288,7 @@ fn snapshot_val(drv: Drv, s: u32) -> Val {
 
 struct Updater {
     drv: Drv,
+    family: u8,
     updates: Vec<u16>,
     count: u16,
     snap: u32,
@@ -302,7 +308,7 @@ impl DeviceModel for std::rc::Rc<std::cell::RefCell<Updater>> {
         u.accesses += 1;
         if u.updates.contains(&u.count) {
             u.snap += 1;
-            let b = snapshot_bytes(u.drv, u.snap);
+            let b = snapshot_bytes(u.drv, u.snap, u.family);
             w.dev.config[..b.len()].copy_from_slice(&b);
             w.dev.gen = w.dev.gen.wrapping_add(1);
             if off != usize::MAX && u.reads_since_gen > 0 {
@@ -388,6 +394,7 @@ pub fn torn(c: &Torn, st: &mut Stats) -> Result<(), String> {
     };
     let upd = std::rc::Rc::new(std::cell::RefCell::new(Updater {
         drv: c.drv,
+        family: c.family,
         updates: c.updates.clone(),
         count: 0,
         snap: 1,
@@ -398,7 +405,7 @@ pub fn torn(c: &Torn, st: &mut Stats) -> Result<(), String> {
     }));
     with(|w| {
         w.dev.offered = (1 << 32) | 1; // VERSION_1 + (console) SIZE
-        w.dev.config = snapshot_bytes(c.drv, 1);
+        w.dev.config = snapshot_bytes(c.drv, 1, c.family);
         w.dev.default_max = 256;
         w.spin_limit = 1_000_000;
     });
@@ -406,7 +413,7 @@ pub fn torn(c: &Torn, st: &mut Stats) -> Result<(), String> {
     let cfg_len = with(|w| w.dev.config.len());
     let val = with_transport(c.kind, dtype, cfg_len, TornRun { c, upd: upd.clone() })??;
     let u = upd.borrow();
-    let exposed: Vec<Val> = (1..=u.snap).map(|s| snapshot_val(c.drv, s)).collect();
+    let exposed: Vec<Val> = (1..=u.snap).map(|s| snapshot_val(c.drv, s, c.family)).collect();
     if !exposed.contains(&val) {
         return Err(format!(
             "{:?} on {:?}: returned {:?}, which the device never exposed under a single configuration generation (snapshots {:?}, updates before accesses {:?})",
@@ -433,7 +440,7 @@ pub fn torn(c: &Torn, st: &mut Stats) -> Result<(), String> {
 /// number of accesses of an update-free run
 fn baseline_accesses(drv: Drv, kind: TK) -> u16 {
     let mut st = Stats::default();
-    let c = Torn { drv, kind, updates: vec![] };
+    let c = Torn { drv, kind, updates: vec![], family: 0 };
     let _ = torn(&c, &mut st);
     st.classes.get("config_accesses").copied().unwrap_or(8) as u16
 }
@@ -464,12 +471,15 @@ pub fn torn_items(drv: Drv, quick: bool) -> Vec<Item> {
     for kind in TKS {
         let base = baseline_accesses(drv, kind);
         for j in 0..base * 3 + 4 {
-            items.push(Item::T(Torn { drv, kind, updates: vec![j] }));
+            items.push(Item::T(Torn { drv, kind, updates: vec![j], family: 0 }));
         }
         let lim2 = if quick { (base * 2 + 2).min(24) } else { (base * 3 + 4).min(60) };
         for j in 0..lim2 {
             for k in j + 1..lim2 {
-                items.push(Item::T(Torn { drv, kind, updates: vec![j, k] }));
+                items.push(Item::T(Torn { drv, kind, updates: vec![j, k], family: 0 }));
+                if matches!(drv, Drv::Blk | Drv::Vsock) {
+                    items.push(Item::T(Torn { drv, kind, updates: vec![j, k], family: 1 }));
+                }
             }
         }
     }
@@ -513,13 +523,16 @@ pub fn run(ctx: &Ctx) -> Report {
             let base = baseline_accesses(drv, kind);
             let lim = base * 3 + 4;
             for j in 0..lim {
-                items.push(Item::T(Torn { drv, kind, updates: vec![j] }));
+                items.push(Item::T(Torn { drv, kind, updates: vec![j], family: 0 }));
                 n_single += 1;
             }
             let lim2 = if ctx.quick() { (base * 2 + 2).min(40) } else { (base * 3 + 4).min(80) };
             for j in 0..lim2 {
                 for k in j + 1..lim2 {
-                    items.push(Item::T(Torn { drv, kind, updates: vec![j, k] }));
+                    items.push(Item::T(Torn { drv, kind, updates: vec![j, k], family: 0 }));
+                if matches!(drv, Drv::Blk | Drv::Vsock) {
+                    items.push(Item::T(Torn { drv, kind, updates: vec![j, k], family: 1 }));
+                }
                     n_pairs += 1;
                 }
             }
@@ -532,7 +545,7 @@ pub fn run(ctx: &Ctx) -> Report {
     stats.merge(st);
     if failure.is_none() {
         let strat = || {
-            (0usize..5, 0usize..3, prop::collection::btree_set(0u16..120, 0..12)).prop_map(|(d, k, u)| Torn { drv: DRVS[d], kind: TKS[k], updates: u.into_iter().collect() })
+            (0usize..5, 0usize..3, prop::collection::btree_set(0u16..120, 0..12)).prop_map(|(d, k, u)| Torn { drv: DRVS[d], kind: TKS[k], family: (u.len() % 2) as u8, updates: u.into_iter().collect() })
         };
         let (st, f) = run_proptest(ctx, "torn", 131, ctx.n(300_000, 100_000_000), strat, |c: &Torn, st| torn(c, st));
         stats.merge(st);
@@ -543,7 +556,7 @@ pub fn run(ctx: &Ctx) -> Report {
         failure,
         info: PartInfo {
             level: "exploration",
-            rule: "bounds: exhaustive grid of window sizes 0..=300 bytes x {u8,u16,u32,[u8;6],8-byte struct,12-byte struct} x every suitably aligned offset in 0..=window+16 and the 16 offsets below usize::MAX x read/write x {MMIO legacy, MMIO modern, PCI, PCI without device-config capability}, oracle in 128-bit arithmetic on the ordered bus trace (exact byte coverage inside, error and empty trace outside, never a panic). Torn reads: blk capacity, vsock CID, console size, net MAC, 9p mount tag on {model, MMIO modern, PCI} with the device switching self-identifying snapshots (and bumping the generation) before the j-th configuration access: every single j, every pair, and generated sets of up to 12 updates; the returned value must equal one exposed snapshot. Non-trivial = every bounds grid cell; a torn-read schedule in which an update falls strictly between two field reads of one attempt. distinct = (kind, window) / (driver, transport, update positions).",
+            rule: "bounds: exhaustive grid of window sizes 0..=300 bytes x {u8,u16,u32,[u8;6],8-byte struct,12-byte struct} x every suitably aligned offset in 0..=window+16 and the 16 offsets below usize::MAX x read/write x {MMIO legacy, MMIO modern, PCI, PCI without device-config capability}, oracle in 128-bit arithmetic on the ordered bus trace (exact byte coverage inside, error and empty trace outside, never a panic). Torn reads: blk capacity, vsock CID, console size, net MAC, 9p mount tag on {model, MMIO modern, PCI} with the device switching self-identifying snapshots (and, for 64-bit values, a second family whose upper half alternates between two values, so that it repeats across updates) (and bumping the generation) before the j-th configuration access: every single j, every pair, and generated sets of up to 12 updates; the returned value must equal one exposed snapshot. Non-trivial = every bounds grid cell; a torn-read schedule in which an update falls strictly between two field reads of one attempt. distinct = (kind, window) / (driver, transport, update positions).",
             assumptions: vec![
                 "misaligned offsets and types with alignment > 4 are documented assertion failures of the crate and are not generated".into(),
                 "legacy MMIO has no generation counter, so untorn reads are not asserted there".into(),
